@@ -745,6 +745,19 @@ func genCase(r *common.Rand, thorough bool) *Case {
 		c.K = 4 + r.Intn(5)
 	}
 	var cand, man []int
+	for {
+		ok := false
+		for _, n := range g.Nodes {
+			if !n.Foreign() {
+				ok = true
+			}
+		}
+		if ok {
+			break
+		}
+		g = dag.Random(r, o)
+		c.Nodes = g.Encode()
+	}
 	for _, n := range g.Nodes {
 		if !n.Foreign() {
 			cand = append(cand, n.ID)
@@ -914,7 +927,7 @@ func main() {
 			}
 		}
 	} else {
-		n := run.Scale(350, 6000)
+		n := run.Scale(1200, 40000)
 		for i := 0; i < n; i++ {
 			cases = append(cases, genCase(run.Rand, run.Thorough()))
 		}
